@@ -338,6 +338,9 @@ def full_range_failures(fb, paths, pos_den_only=False):
                 if kind in ("Overflow", "OverflowNeg") or (kind == "Bare" and op in ("Add", "Sub", "Mul", "Neg")):
                     if not ok:
                         failing.setdefault((fn, "Neg" if kind == "OverflowNeg" else (op or kind)), (label, span, kind))
+                if kind == "Cast" and not ok and op and "->" in op:
+                    # a narrowing `as` cast of a value that may not fit: no panic, the exact number silently becomes another one
+                    failing.setdefault((fn, "Cast:" + op), (label, span, "Cast"))
     return failing
 
 
@@ -526,7 +529,9 @@ def range_and_sign(ctx, fb, census=True):
         ctx.report("C09-never-wrong-exact", "%s/%s" % (_short(fn), op),
                    "exact i32 %s in %s can exceed the i32 range for some operands (case %s) and is a bare operator: it %s instead "
                    "of reporting an error or promoting" % (op, _short(fn), label,
-                                                          "wraps to a different exact number" if kind == "Bare" else "panics (overflow check)"),
+                                                          "wraps to a different exact number" if kind == "Bare" else (
+                                                              "is truncated by the `as` cast to a different exact number, silently" if kind == "Cast"
+                                                              else "panics (overflow check)")),
                    mir.span_loc(span))
 
 
